@@ -212,3 +212,16 @@ PROPS["C12"] = dict(
         "the general round trip is checked per case (roundtrip_ok, translation validation), proved only without suppressed nodes",
     ],
 )
+
+PROPS["C08"] = dict(
+    level="exploration",
+    coq_targets=[],
+    runs=[dict(bin="c08", profiles=["dev", "release"])],
+    quick=dict(n=6000, shards=1),
+    thorough=dict(n=400000, shards=1, run_timeout=3400),
+    trusted_base=[
+        "exploration only so far: every parser (N-Triples, N-Quads, Turtle, TriG, generalized N-Quads/TriG, RDF/XML, JSON-LD without remote contexts) is run, in dev and release builds, on valid documents, single-edit mutants, dictionary splices, invalid UTF-8 and (in a subprocess on a 2 MiB thread) deeply nested inputs; every accessor of every yielded term is called and checked with the toolkit's own validators",
+        "the decisive content of C08 (termination and panic-freedom of ~8000 lines of third-party parser code on every byte string) is run-time behaviour that a model cannot exhibit; the logical core (validators accept whatever the strict back-ends' token rules accept) is planned as regenerated-regex inclusion theorems and is NOT claimed yet",
+    ],
+    assumptions=[],
+)
